@@ -556,7 +556,7 @@ pub fn run(ctx: &Ctx) -> ! {
         let report = vcore::run_single(ctx, move |_| scenario(gen(seed)));
         vcore::finish(ctx, report, fin());
     }
-    let n = ctx.pick(20_000, 600_000);
+    let n = ctx.pick(60_000, 1_000_000);
     let c2 = ctx.clone();
     let report = vcore::run_parallel(
         ctx,
